@@ -133,6 +133,8 @@ def find_prop(tree, cls, name):
             for m in n.body:
                 if isinstance(m, ast.FunctionDef) and m.name == name and \
                    all(not (isinstance(d, ast.Attribute) and d.attr in ('setter', 'deleter')) for d in m.decorator_list):
+                    if [ast.unparse(d) for d in m.decorator_list] not in (['property'], []):
+                        raise Unsupported(f'{cls}.{name} is not a plain property (decorators: {[ast.unparse(d) for d in m.decorator_list]})')
                     return m
     raise Unsupported(f'{cls}.{name} not found')
 
